@@ -42,13 +42,21 @@ def positional_args_rounded(f, res: RuleResult, rule: str, fn_name: str, helper:
     if not srcs:
         raise AnalysisError(f'{f.key}: no positional get_argument found')
     cfg = CFG(f.node)
+    # one level of wrappers: module-level functions that pass their own first parameter
+    # through the half-up helper (e.g. a "round unless NaN/INF" helper)
+    wrappers = {g.name for g in f.module.functions.values()
+                if g.cls is None and g.parent is None and g.params() and any(
+                    isinstance(c, ast.Call) and dotted(c.func).split('.')[-1] == helper and c.args
+                    and isinstance(c.args[0], ast.Name) and c.args[0].id == g.params()[0]
+                    for c in walk_local(g.node))}
+    helpers = {helper} | wrappers
 
     def expr_taint(e: ast.AST, st: State, nd) -> set:
         if isinstance(e, ast.Call):
             if id(e) in srcs:
                 return {srcs[id(e)]}
             last = dotted(e.func).split('.')[-1]
-            if last in ('float', 'int', 'Decimal', 'abs', 'cast', helper, 'max', 'min'):
+            if last in ('float', 'int', 'Decimal', 'abs', 'cast', 'max', 'min') or last in helpers:
                 out: set = set()
                 for a in e.args:
                     out |= T.value_taint(a, st, nd)
@@ -67,7 +75,7 @@ def positional_args_rounded(f, res: RuleResult, rule: str, fn_name: str, helper:
     for nd in cfg.nodes:
         st = T.at(nd)
         for x in nd.walk():
-            if isinstance(x, ast.Call) and dotted(x.func).split('.')[-1] == helper and x.args:
+            if isinstance(x, ast.Call) and dotted(x.func).split('.')[-1] in helpers and x.args:
                 kinds = {k for k in T.value_taint(x.args[0], st, nd) if k.startswith('p')}
                 res.instances.append(f'{f.key}: {helper}({stmt_text(x.args[0])[:30]}) depends on '
                                      f'{sorted(kinds)}')
